@@ -132,7 +132,13 @@ class YAMLPath:
         if len(self._original) < 1:
             self.original = segment
         else:
-            self.original += "{}{}".format(separator, segment)
+            base = self._original
+            if separator is not PathSeparators.infer_separator(base):
+                # The separator was changed after this path was written;
+                # restate the path in the present notation lest the two
+                # notations become mixed in one text.
+                base = str(self)
+            self.original = "{}{}{}".format(base, separator, segment)
         return self
 
     def pop(self) -> PathSegment:
